@@ -1,0 +1,22 @@
+//go:build verif && unix
+
+package term
+
+import "time"
+
+// VerifByteReader is the byte source consumed by the event decoder.
+type VerifByteReader interface {
+	ReadByteWithTimeout(timeout time.Duration) (byte, error)
+}
+
+// VerifErrTimeout is the error a VerifByteReader must return when a read with
+// a finite timeout times out.
+var VerifErrTimeout = errTimeout
+
+// VerifReadEvent decodes one event from rd, exactly as the terminal reader
+// does.
+func VerifReadEvent(rd VerifByteReader) (Event, error) { return readEvent(rd) }
+
+// VerifIsSeqError reports whether err is the error used for malformed escape
+// sequences.
+func VerifIsSeqError(err error) bool { _, ok := err.(seqError); return ok }
